@@ -330,6 +330,51 @@ def run(ctx):
         if bad:
             ctx.violation('protocol %d: server sends a login disconnect and closes before reading the handshake: %s' % (v, bad),
                           {'version': v, 'message': msg}, key={'kind': 'early-disconnect', 'version': v, 'message': msg})
+    # ---- a user handler takes over plugin requests (early listener: answer, then IgnorePacket): its answer is
+    # what reaches the server, once, successful with exactly the handler's payload (empty payload included)
+    from minecraft.exceptions import IgnorePacket
+    for trial in range(ctx.scale(18, 120)):
+        v = [x for x in versions if x >= 385][trial % len([x for x in versions if x >= 385])]
+        cx = C.ConnectionContext(protocol_version=v)
+        datas = [rng.choice([b'', b'', b'ok', bytes(rng.randrange(256) for _ in range(5))]) for _ in range(rng.randint(1, 3))]
+        mids = rng.sample(range(1, 200), len(datas))
+        script = []
+        if trial % 3 == 1:
+            script.append(('compress', rng.choice([0, 64])))
+        script += [('plugin', m_, 'my:chan', b'q') for m_ in mids] + [('success',)]
+        cfg = {'version': v, 'script': script, 'rsa': '1024',
+               'uuid_binary': list(cb.login.LoginSuccessPacket.get_definition(cx)[0].values())[0].__name__ == 'UUID'}
+        if sb.login.LoginStartPacket.get_id(cx) != 0:
+            cfg['login_ids'] = dict(disconnect=cb.login.DisconnectPacket.get_id(cx), encreq=cb.login.EncryptionRequestPacket.get_id(cx),
+                                    success=cb.login.LoginSuccessPacket.get_id(cx), compress=cb.login.SetCompressionPacket.get_id(cx),
+                                    start=sb.login.LoginStartPacket.get_id(cx), encresp=sb.login.EncryptionResponsePacket.get_id(cx),
+                                    plugin=cb.login.PluginRequestPacket.get_id(cx), plugresp=sb.login.PluginResponsePacket.get_id(cx))
+        excs = []
+        with simnet.Net(lambda s_: RefServer(s_, cfg)) as net:
+            conn = C.Connection('h', 1, username='u', allowed_versions={v}, handle_exception=lambda e, i: excs.append(e))
+            answers = dict(zip(mids, datas))
+
+            def take_over(pkt):
+                conn.write_packet(sb.login.PluginResponsePacket(message_id=pkt.message_id, data=answers[pkt.message_id]))
+                raise IgnorePacket
+            conn.register_packet_listener(take_over, cb.login.PluginRequestPacket, early=True)
+            conn.connect()
+            net.run_threads()
+            reactor = type(conn.reactor).__name__
+        srv = cfg['servers'][0]
+        pr_id = cfg.get('login_ids', {}).get('plugresp', 2)
+        seen = []
+        for st, pid, payload, _e, _c in srv.frames:
+            if pid == pr_id and st in ('login', 'play') and payload:
+                mid, q = rc.read_varint(payload, 0)
+                seen.append((mid, payload[q:q + 1], payload[q + 1:]))
+        want = [(m_, b'\x01', d_) for m_, d_ in zip(mids, datas)]
+        ctx.case(('plugin-handler', v, tuple(mids), tuple(datas)))
+        ctx.count('plugin-handler')
+        if seen != want or excs or reactor != 'PlayingReactor':
+            ctx.violation('protocol %d: a user handler answers plugin requests %r with payloads %r: the server received %r (state %s, errors %r)'
+                          % (v, mids, datas, seen, reactor, excs[:1]), {'version': v, 'payloads': [d_.hex() for d_ in datas]},
+                          key={'kind': 'plugin-handler', 'version': v, 'empty': any(d_ == b'' for d_ in datas)})
     # ---- two logins on ONE Connection: the first ends in a login disconnect whose exception handler
     # reconnects (the documented auto-reconnect pattern); nothing negotiated in session 1 may apply to
     # session 2 before session 2's own announcements
